@@ -92,6 +92,25 @@ func genC08(tier string, seed uint64, emit func(string)) {
 			emit("GATE " + line[4:])
 		}
 	})
+	// the claims object changes after it was attached (no second SetClaims): validate-and-sign must notice
+	r := &rng{s: seed ^ 0x5bd1e995}
+	for i := 0; i < 300; i++ {
+		kind := 1 + r.intn(2)
+		good := validClaims(kind, r)
+		bad := validClaims(kind, r)
+		alt := claimAlternatives(kind, r)
+		for {
+			fld := 1 + r.intn(nClaimTok-1)
+			if len(alt[fld]) > 0 {
+				bad[fld] = alt[fld][r.intn(len(alt[fld]))]
+				break
+			}
+		}
+		if strings.Contains(bad[tSwc], "nil") || bad[tVsi] == hx("\xff\xfe") || strings.Contains(bad[tSwc], hx("\xff")+",") || bad[tProfile] == "o" || bad[tProfile] == "z" {
+			continue
+		}
+		emit("EV 2 " + good.String() + " " + bad.String() + " set:0 mut:1 vsign:g1 ver:1 set:1 sign:g1 set:0 vsign:g2 mut:1 vsign:g2")
+	}
 	// decoding gates: the C04 tokens
 	genC04(tier, seed, func(line string) {
 		if strings.HasPrefix(line, "DEC ") {
